@@ -30,6 +30,21 @@ def cmp_key(v):
         return ["method", id(v.__func__)]
     if inspect.isfunction(v) or inspect.isbuiltin(v) or inspect.isclass(v) or inspect.ismodule(v):
         return ["identity", id(v)]
+    # plain Python equality semantics: dicts (and the key index of keyed containers) ignore insertion order
+    if isinstance(v, dict):
+        return ["dict", sorted(([cmp_key(k), cmp_key(x)] for k, x in v.items()), key=repr)]
+    if isinstance(v, (list, tuple)):
+        return [type(v).__name__, [cmp_key(x) for x in v]]
+    if isinstance(v, (set, frozenset)):
+        return ["set", sorted((cmp_key(x) for x in v), key=repr)]
+    if type(v).__name__ == "KeyedList" and "_list" in getattr(v, "__dict__", {}):
+        return ["list", [cmp_key(x) for x in v.__dict__["_list"]]]  # KeyedList == list compares the lists
+    if type(v).__name__ == "KeyedSet" and "_dict" in getattr(v, "__dict__", {}):
+        return ["KeyedSet", cmp_key(v.__dict__["_dict"])]
+    if is_spec_instance(v):
+        return ["spec", type(v).__name__, sorted(([k, cmp_key(x)] for k, x in v.__dict__.items()), key=repr)]
+    if type(v).__name__ == "Box":
+        return ["Box", cmp_key(v.v)]
     return abs_value(v)
 
 
